@@ -219,7 +219,7 @@ package tls
 // (cipher_suites.go dheRSAKA/dheDSSKA: the authentication of a DHE key agreement is a new signedKeyAgreement)
 //@   requires typeis(ka.auth, *signedKeyAgreement) && authSigned(ka.auth) != nil && sep(authSigned(ka.auth), ka) && sep(authSigned(ka.auth), skx) && sep(authSigned(ka.auth), skx.key) && sep(authSigned(ka.auth), cert) && vpKeySep(authSigned(ka.auth), cert.PublicKey)
 //@   requires sep(ka, skx) && sep(ka, skx.key) && sep(ka, config) && sep(skx, config) && sep(ka, cert) && sep(skx, cert) && vpKeySep(ka, cert.PublicKey) && vpKeySep(skx, cert.PublicKey)
-// (cut points: the message is not written while the integers are built)
+// (the message is not written while the integers are built: what is signed is what was received)
 //@   at call SetBytes#2 assert same(skx.key, old(skx.key))
 //@   at call SetBytes#3 assert same(skx.key, old(skx.key))
 //@   at call Set assert same(skx.key, old(skx.key))
